@@ -32,6 +32,16 @@ def oracle_c09(ast):
             res.append(("sample-labelled-invalid", "pattern %r: sample %r is labelled invalid" % (pat, s)))
         if cre.fullmatch(s) is None:
             res.append(("sample-does-not-match", "pattern %r: generated string %r is not matched in full" % (pat, s)))
+    flat = R.flat_items(ast)
+    if flat and all(len(s) == len(flat) for _, s in samples):
+        # per occurrence: position i of every string belongs to item i
+        for i, it in enumerate(flat):
+            want = [it[1]] if it[0] == 'C' else [x for c in it[1] for x in ([c[1]] if c[0] == 'c' else [c[1], c[2]])]
+            for ch in want:
+                if not any(s[i] == ch for _, s in samples):
+                    res.append(("occurrence-not-used", "pattern %r: character %r of item %d (counted from 0) occurs at that place in no generated string %r" % (
+                        pat, ch, i, [s for _, s in samples])))
+                    return res
     joined = "".join(s for _, s in samples)
     for ch in R.literal_occurrences(ast):
         if ch not in joined:
@@ -109,7 +119,10 @@ def run(pid, tier):
                      {"theorem": ck.obl["file"]}, found_input=False)
     rng = random.Random(ck.seed * 389 + 29)
     n = 500 if tier == "quick" else 8000
-    asts = [R.gen_regex(rng, rng.choice([1, 2, 3]), allow_bad=True) for _ in range(n)]
+    asts = []
+    for _ in range(n):
+        m = rng.random()
+        asts.append(R.gen_delimited(rng) if m < 0.08 else R.gen_flat(rng) if m < 0.16 else R.gen_regex(rng, rng.choice([1, 2, 3]), allow_bad=True))
     hist = {"unsupported_by_contract": 0, "with_group": 0, "with_class": 0, "with_alt": 0, "with_open_range": 0}
     if pid == "C09":
         lines = [" ".join(["R"] + VAR.split() + [str(FUEL)] + R.enc_regex(a)) for a in asts]
